@@ -1,5 +1,6 @@
 import TonicModel.Model.Codegen
 import TonicModel.Spec.Codegen
+import TonicModel.Lemmas.Codegen
 import TonicModel.Props.C10
 /-
 C11 — Generated clients and servers agree with each other and with checked-in code.
@@ -28,17 +29,9 @@ def obsC (c : ClientCall) : Spec.Codegen.ClientObs :=
 def obsS (a : ServerArm) : Spec.Codegen.ServerObs :=
   ⟨a.literal, callNum a.call, traitNum a.svcTrait, a.reqStream, a.respStream, a.req, a.resp⟩
 
-/-- The package as the user asked for it to appear. -/
-def pkgShown (s : Service) (o : Opts) : Bytes := if o.emitPackage then s.package else []
-
 /-- The generated server as C10's router sees it. -/
 def serverOf (s : Service) (o : Opts) : Router.Svc :=
   ⟨serviceNameConst s o, s.methods.map (·.ident)⟩
-
-private theorem serviceName_spec (s : Service) (o : Opts) :
-    formatServiceName s o = Spec.Codegen.fullName (pkgShown s o) s.ident := by
-  unfold formatServiceName pkgShown Spec.Codegen.fullName
-  cases o.emitPackage <;> cases s.package <;> simp [dot]
 
 private theorem path_spec (s : Service) (o : Opts) (m : Method) :
     formatMethodPath s m o =
@@ -177,6 +170,78 @@ theorem C11_distinct_paths (s : Service) (o : Opts) (hnd : (s.methods.map (·.id
   rw [this]
   exact List.Pairwise.map _ (fun a b hab h => hab (List.append_cancel_left h)) hnd
 
+/-- A service definition whose names are protobuf-like: identifier `.`-free and non-empty, no
+route-pattern characters anywhere in the shown package or the identifier, method identifiers
+non-empty. -/
+def DefOk (s : Service) (o : Opts) : Prop :=
+  dot ∉ s.ident ∧ s.ident ≠ [] ∧
+  (∀ c, c ∈ pkgShown s o ∨ c ∈ s.ident → c ≠ 47 ∧ c ≠ 123 ∧ c ≠ 125) ∧
+  (∀ m ∈ s.methods, m.ident ≠ [])
+
+/-- **Distinct definitions give a well-formed registry.**  Generated servers of service
+definitions that differ in (package, service identifier) advertise distinct, route-safe names:
+C10's hypotheses hold for any such set. -/
+theorem C11_registry_wellformed (ds : List Service) (o : Opts) (hok : ∀ s ∈ ds, DefOk s o)
+    (hdist : (ds.map (fun s => (pkgShown s o, s.ident))).Nodup) :
+    C10.WellFormed (ds.map (fun s => serverOf s o)) := by
+  refine ⟨?_, ?_, ?_⟩
+  · intro x hx
+    obtain ⟨s, hs, rfl⟩ := List.mem_map.mp hx
+    obtain ⟨_, hne, hch, _⟩ := hok s hs
+    have hmem : ∀ c ∈ serviceNameConst s o, c ≠ 47 ∧ c ≠ 123 ∧ c ≠ 125 := by
+      intro c hc
+      rw [serviceNameConst, serviceName_spec] at hc
+      rcases mem_fullName _ _ _ hc with h | h | h
+      · exact hch c (Or.inl h)
+      · subst h; decide
+      · exact hch c (Or.inr h)
+    have hnn : serviceNameConst s o ≠ [] := by
+      rw [serviceNameConst, serviceName_spec]; exact fullName_ne_nil _ _ hne
+    simp only [serverOf, Router.validName, Router.slash, Bool.and_eq_true, Bool.not_eq_eq_eq_not,
+      Bool.not_true, List.isEmpty_eq_false_iff, List.contains_eq_mem, decide_eq_false_iff_not]
+    exact ⟨⟨⟨hnn, fun h => (hmem _ h).1 rfl⟩, fun h => (hmem _ h).2.1 rfl⟩, fun h => (hmem _ h).2.2 rfl⟩
+  · intro x hx mi hmi
+    obtain ⟨s, hs, rfl⟩ := List.mem_map.mp hx
+    obtain ⟨m, hm, rfl⟩ := List.mem_map.mp hmi
+    exact (hok s hs).2.2.2 m hm
+  · rw [List.map_map]
+    rw [List.Nodup, List.pairwise_map] at hdist ⊢
+    refine hdist.imp_of_mem ?_
+    intro a b ha hb hne heq
+    apply hne
+    simp only [Function.comp, serverOf, serviceNameConst, serviceName_spec] at heq
+    obtain ⟨h1, h2⟩ := fullName_inj _ _ _ _ (hok a ha).1 (hok b hb).1 heq
+    rw [h1, h2]
+
+/-- **End to end, stated on service definitions only.**  Take any set of service definitions
+with protobuf-like names that differ in (package, identifier); register all their generated
+servers; then the call the generated client makes for method `m` of definition `s` runs exactly
+the handler of `m` in the server generated for `s` — whatever the other services are called
+(prefixes of one another, same identifier in other packages, …). -/
+theorem C11_end_to_end_defs (ds : List Service) (o : Opts) (hok : ∀ s ∈ ds, DefOk s o)
+    (hdist : (ds.map (fun s => (pkgShown s o, s.ident))).Nodup)
+    (s : Service) (hs : s ∈ ds) (m : Method) (hm : m ∈ s.methods) :
+    Router.dispatch (ds.map (fun s => serverOf s o)) (clientMethod s o m).path =
+      .handler (serviceNameConst s o) m.ident :=
+  C11_end_to_end _ (C11_registry_wellformed ds o hok hdist) s o
+    (List.mem_map.mpr ⟨s, hs, rfl⟩) m hm
+
+/-- … and a path that no generated client method produces is answered UNIMPLEMENTED with no
+handler run (C10 transported to definitions). -/
+theorem C11_other_paths_unimplemented (ds : List Service) (o : Opts) (hok : ∀ s ∈ ds, DefOk s o)
+    (hdist : (ds.map (fun s => (pkgShown s o, s.ident))).Nodup) (path : Bytes)
+    (hno : ∀ s ∈ ds, ∀ m ∈ s.methods, path ≠ (clientMethod s o m).path) :
+    (Router.dispatch (ds.map (fun s => serverOf s o)) path).handlerRan = none ∧
+    (Router.dispatch (ds.map (fun s => serverOf s o)) path).routerStatus = some 12 := by
+  apply C10.C10_else_unimplemented _ (C11_registry_wellformed ds o hok hdist)
+  rintro ⟨sn, mn, ⟨ms, hmem, hmn⟩, hp⟩
+  simp only [C10.decl, List.map_map, List.mem_map, Function.comp, serverOf, Prod.mk.injEq] at hmem
+  obtain ⟨s, hs, rfl, rfl⟩ := hmem
+  obtain ⟨m, hm, rfl⟩ := List.mem_map.mp hmn
+  apply hno s hs m hm
+  rw [hp, (C11_service_name_is_prefix s o m).2]
+  simp [Spec.Router.pathOf, Router.routePrefix, Router.slash]
+
 /-- Without a package (or with `emit_package(false)`) the name is the bare service identifier;
 with one it is `package.Service`. -/
 theorem C11_service_name (s : Service) (o : Opts) :
@@ -200,6 +265,12 @@ example : (clientCalls svc0 ⟨false⟩).map (·.path) =
 example : (svc0.methods.map (·.ident)).Nodup := by decide
 example : C10.WellFormed [serverOf svc0 ⟨true⟩, ⟨bs "a.b", [bs "Greeter"]⟩] := by
   refine ⟨by decide, by decide, by decide⟩
+example : DefOk svc0 ⟨true⟩ := by
+  refine ⟨by decide, by decide, ?_, by decide⟩
+  intro c hc
+  have h : c ∈ pkgShown svc0 ⟨true⟩ ++ svc0.ident := List.mem_append.mpr hc
+  have all : ∀ c ∈ pkgShown svc0 ⟨true⟩ ++ svc0.ident, c ≠ 47 ∧ c ≠ 123 ∧ c ≠ 125 := by decide
+  exact all c h
 example : (serverArms svc0 ⟨true⟩).map (·.call) = [.unary, .serverStreaming, .clientStreaming, .streaming] := by decide
 
 end C11
